@@ -15,14 +15,15 @@ from vmon.libutil import lib_warnings, load_definition, monitored
 
 LEVEL = "exploration"
 SHARDS = {"quick": 16, "thorough": 16}
-MUST = ["histories", "outputs.joined", "outputs.single", "model.orphans", "model.gaps", "model.superseded", "wraparound.groups", "with_prefix_bytes"]
+MUST = ["histories", "outputs.joined", "outputs.single", "model.orphans", "model.gaps", "model.superseded", "wraparound.groups", "with_prefix_bytes", "mixed_header_bits"]
 RULE = ("history = sequence of (flag, apid, in-sequence|gap) symbols turned into real CCSDS packets with unique ids and "
         "fed to packet_generator(combine_segmented_packets=True, secondary_header_bytes=s) as one byte stream; the "
         "recorded outputs (raw bytes of each yielded packet, warnings per step) are compared with a per-APID state "
         "machine (UNSEGMENTED alone and not touching an open group; FIRST supersedes; LAST closes and clears; gaps "
         "judged modulo 16384 at LAST). Enumerated completely: all histories of length <= 4 over the 16-symbol alphabet "
         "(69,904; thorough: length <= 5, 1,118,480), and with steps {+1,+2,0 (duplicate),-1 (reordered)} up to length 3 (thorough 4), for secondary-header lengths {0,1,4,=data length} rotated, start "
-        "counters {16382, 0, 16383}; plus seeded random histories of length 6..60 over 3 APIDs. distinct_nontrivial = "
+        "counters {16382, 0, 16383}; all histories of length <= 3 again with the segments of one APID differing in version, "
+        "type or secondary-header flag (grouping is by APID alone); plus seeded random histories of length 6..60 over 3 APIDs. distinct_nontrivial = "
         "distinct (history shape without ids, secondary header length) signatures that contain at least one "
         "segmented packet; all-UNSEGMENTED histories are trivial and excluded.")
 ASSUMPTIONS = ["sequence continuity is judged among the members of a group (as the library does), at the LAST packet",
@@ -32,7 +33,21 @@ FLAGS = {"C": 0, "F": 1, "L": 2, "U": 3}
 DATA_LEN = 12
 
 
-def make_packets(history, start, apids):
+def header_bits(mode, i):
+    """(version, type, secondary header flag) of packet number i: the property groups by APID alone, so segments of one
+    APID may differ in the other identification bits (only the first segment carrying a secondary header, ...)"""
+    if mode == 1:
+        return 0, 0, (i + 1) % 2
+    if mode == 2:
+        return 0, i % 2, 1
+    if mode == 3:
+        return i % 3, 0, 1
+    if mode == 4:
+        return (i * 5) % 8, (i // 2) % 2, 1 if i == 0 else 0
+    return 0, 0, 1
+
+
+def make_packets(history, start, apids, hdr_mode=0):
     """history: [(flag, apid_index, gap)] -> list of dict(raw, flag, apid, seq, id)"""
     from space_packet_parser import packets as P
     ctr = {a: start for a in apids}
@@ -46,7 +61,8 @@ def make_packets(history, start, apids):
         pid = b"\xa5" + (i + 1).to_bytes(2, "big") + b"\x5a"
         data = pid + bytes(DATA_LEN - 8) + pid
         raw = bytes(P.create_ccsds_packet(data, apid=apid, sequence_flags=FLAGS[flag], sequence_count=seq,
-                                          secondary_header_flag=1))
+                                          version_number=header_bits(hdr_mode, i)[0], type=header_bits(hdr_mode, i)[1],
+                                          secondary_header_flag=header_bits(hdr_mode, i)[2]))
         out.append({"raw": raw, "flag": flag, "apid": apid, "seq": seq, "id": pid, "i": i})
     return out
 
@@ -102,8 +118,10 @@ def shape(history):
     return "".join(f"{f}{a}{g_(g)}" for f, a, g in history)
 
 
-def run_history(ctx, defn, history, sh, start, apids, sample=False, k=None):
-    pkts = make_packets(history, start, apids)
+def run_history(ctx, defn, history, sh, start, apids, sample=False, k=None, hdr_mode=0):
+    pkts = make_packets(history, start, apids, hdr_mode)
+    if hdr_mode:
+        ctx.count("mixed_header_bits")
     steps, trailing = model(pkts, sh, ctx)
     if k is None:
         k = (0, 0, 0, 4, 2)[(len(history) * 7 + sh + start) % 5]     # foreign prefix bytes before every raw packet
@@ -135,7 +153,7 @@ def run_history(ctx, defn, history, sh, start, apids, sample=False, k=None):
     seg = any(f != "U" for f, _, _ in history)
     if seg:
         ctx.sig(shape(history) if len(history) <= 5 else shape(history[:5]) + f"+{len(history) - 5}", sh)
-    wit = {"history": shape(history), "secondary_header_bytes": sh, "start_counter": start, "skip_header_bytes": k,
+    wit = {"history": shape(history), "header_bits_mode": hdr_mode, "secondary_header_bytes": sh, "start_counter": start, "skip_header_bytes": k,
            "seqs": [p["seq"] for p in pkts], "model_outputs": [c for _, c, _ in steps],
            "got_outputs": [ids_in(b, pkts) for b, _ in got]}
     if sample:
@@ -220,6 +238,12 @@ def run(ctx):
             if ctx.mine(hi):
                 for sh in shs:
                     run_history(ctx, defn, list(history), sh, 16383, apids2)
+    # segments of one APID differing in version / type / secondary-header flag: all histories of length <= 3, each mode
+    for L in range(1, 4):
+        for hi, history in enumerate(itertools.product(alphabet, repeat=L)):
+            if ctx.mine(hi):
+                for mode in (1, 2, 3, 4):
+                    run_history(ctx, defn, list(history), shs[(hi + mode) % 4], 16383, apids2, hdr_mode=mode)
     # ---- random long histories over 3 APIDs -------------------------------------------------------------
     apids3 = (0, 7, 1024)
     for i in range(ctx.size(4000, 600_000) // ctx.nshards):
@@ -229,4 +253,4 @@ def run(ctx):
             f = rng.choices("FCLU", weights=(3, 4, 3, 2))[0]
             hist.append((f, rng.randrange(3), rng.choice([False] * 8 + [True, 0, -1, 3])))
         run_history(ctx, defn, hist, rng.choice(shs + [2, 8]), rng.choice(starts + [rng.randrange(16384)]), apids3,
-                    sample=(i == 0))
+                    sample=(i == 0), hdr_mode=rng.choice((0, 0, 1, 2, 3, 4)))
